@@ -10,6 +10,7 @@ CONSTANTS
   HalvingInterval = 2
   MaxMoney = 30
   Horizon <- NoHorizon
+  RulesOff = {}
   Known <- NoKnown
   Keys = {1}
   Miners = {1}
